@@ -9,6 +9,7 @@ package main
 import (
 	"encoding/json"
 	"fmt"
+	"runtime/debug"
 	"sort"
 	"strings"
 	"sync"
@@ -31,7 +32,7 @@ type scenario struct {
 type rec struct {
 	hist []int
 	b    []byte
-	raw  string
+	fp   uint64 // fingerprint of the state's dump (vacuity counter only)
 }
 
 type pre struct{ class, last string }
@@ -157,7 +158,7 @@ func failsWith(sc *scenario, class string) func([]int) bool {
 type target struct {
 	names []string
 	cmds  []fsmx.Cmd
-	raw   string
+	fp    uint64
 }
 
 func mkTarget(sc *scenario, hist []int) target {
@@ -193,7 +194,7 @@ func richTargets() []target {
 		}
 		fsmx.Prepare(cs)
 		f := fsmx.Build(cs)
-		t.raw = fsmx.Raw(f)
+		t.fp = fsmx.Fingerprint(f)
 		d, _ := fsmx.Canon(f)
 		want := []string{"nodes", "primaryWriterID", "activeCompactorID"}
 		if len(cs) > len(a) {
@@ -331,7 +332,7 @@ func ontoPass(sc *scenario, quick bool, rich []target, stop func() bool) (int64,
 		var l []target
 		for _, r := range sc.recs[d] {
 			t := mkTarget(sc, r.hist)
-			t.raw = r.raw
+			t.fp = r.fp
 			l = append(l, t)
 		}
 		tg = append(tg, l)
@@ -376,7 +377,7 @@ func ontoPass(sc *scenario, quick bool, rich []target, stop func() bool) (int64,
 		var n, h, p1 int64
 		try := func(t target, plusOK bool) {
 			n++
-			if t.raw != s.raw {
+			if t.fp != s.fp {
 				h++
 			}
 			ft := fsmx.Build(t.cmds)
@@ -420,7 +421,7 @@ func ontoPass(sc *scenario, quick bool, rich []target, stop func() bool) (int64,
 		}
 		for j := td + 1; j < k; j++ { // the lagging follower: deeper proper prefixes of s's own history
 			t := mkTarget(sc, s.hist[:j])
-			t.raw = fsmx.Raw(fsmx.Build(t.cmds))
+			t.fp = fsmx.Fingerprint(fsmx.Build(t.cmds))
 			try(t, true)
 		}
 		for _, t := range rich {
@@ -436,6 +437,7 @@ func ontoPass(sc *scenario, quick bool, rich []target, stop func() bool) (int64,
 }
 
 func main() {
+	debug.SetGCPercent(400) // allocation-heavy (JSON in Apply/Restore/dump), small live heap: trade memory for GC time
 	run := ev.Start("C23", "model_checking")
 	quick := run.Quick()
 	roles := map[string]string{"n1": "writer", "n2": "writer", "n3": "reader"} // n4 is never registered
@@ -469,7 +471,7 @@ func main() {
 				viol := stateInvariants(d)
 				if b, err := fsmx.SnapshotBytes(f); err == nil {
 					mu.Lock()
-					sc.recs[len(hist)] = append(sc.recs[len(hist)], rec{hist: append([]int{}, hist...), b: b, raw: fsmx.Raw(f)})
+					sc.recs[len(hist)] = append(sc.recs[len(hist)], rec{hist: append([]int{}, hist...), b: b, fp: fsmx.Fingerprint(f)})
 					mu.Unlock()
 				} else {
 					report(sc, "snapshot-error", hist)
@@ -572,7 +574,7 @@ func main() {
 		for _, x := range minT {
 			tn = append(tn, x.Name)
 		}
-		sig := class + "|snapshot-of=" + seedNote + strings.Join(fsmx.Names(sc.alpha, minH), ";") + "|onto=" + ontoName(tn)
+		sig := class + "|snapshot-of=" + snapName(seedNote, fsmx.Names(sc.alpha, minH)) + "|onto=" + ontoName(tn)
 		rep := map[string]any{"scenario": sc.name, "snapshot_of": fsmx.Names(sc.alpha, minH), "installed_onto_fsm_that_applied": tn,
 			"found_at": map[string]any{"snapshot_of": fsmx.Names(sc.alpha, c.hist), "installed_onto": c.tgt.names}}
 		if c.then >= 0 {
@@ -602,6 +604,13 @@ func ontoName(names []string) string {
 		return "<fresh FSM>"
 	}
 	return strings.Join(names, ";")
+}
+
+func snapName(seedNote string, names []string) string {
+	if seedNote == "" && len(names) == 0 {
+		return "<empty state>"
+	}
+	return seedNote + strings.Join(names, ";")
 }
 
 func pick2(q bool, a, b string) string {
